@@ -299,9 +299,13 @@ func mutableInside(v px.Value, top bool, depth int) bool {
 		if !top {
 			return true
 		}
-		v.EachPair(func(k, e px.Value) { found = found || mutableInside(k, false, depth+1) || mutableInside(e, false, depth+1) })
+		v.EachPair(func(k, e px.Value) {
+			found = found || mutableInside(k, false, depth+1) || mutableInside(e, false, depth+1)
+		})
 	case *types.Hash:
-		v.EachPair(func(k, e px.Value) { found = found || mutableInside(k, false, depth+1) || mutableInside(e, false, depth+1) })
+		v.EachPair(func(k, e px.Value) {
+			found = found || mutableInside(k, false, depth+1) || mutableInside(e, false, depth+1)
+		})
 	case *types.Array:
 		v.Each(func(e px.Value) { found = found || mutableInside(e, false, depth+1) })
 	case *types.HashEntry:
@@ -605,6 +609,25 @@ func (h *hist) step(c px.Context, st sx.Sexp) (res *entry, recv int, args []int)
 			return mk(x), recv, nil
 		}
 		return marker("~"), recv, nil
+	case "chunk":
+		nn, k := a[1].MustInt(), a[2].MustInt()
+		if nn < 1 || nn > 64 || k < 0 || k*nn >= int64(r.list().Len()) {
+			return marker("~"), recv, nil // (EachSlice(0, …) does not terminate; no such chunk)
+		}
+		idx := int64(0)
+		return call(func() {
+			r.list().EachSlice(int(nn), func(s px.List) {
+				if idx == k {
+					out = s
+				}
+				idx++
+			})
+		}), recv, nil
+	case "asarray":
+		if !isHash {
+			return marker("~"), recv, nil
+		}
+		return call(func() { out = r.hash().AsArray() }), recv, nil
 	case "get":
 		if !isHash {
 			return marker("~"), recv, nil
@@ -799,11 +822,13 @@ func wellFormed(st sx.Sexp) bool {
 		return shape(isInt, isInt, isInt)
 	case "at":
 		return shape(isInt, isInt)
+	case "chunk":
+		return shape(isInt, isInt, isInt)
 	case "map", "mapvalues":
 		return shape(isInt, isFn)
 	case "select", "reject", "selectpairs", "rejectpairs":
 		return shape(isInt, isPred)
-	case "sort", "flatten", "unique", "keys", "values", "entries", "ptype", "dtype", "tostring", "tokey", "walk", "ser":
+	case "sort", "flatten", "unique", "keys", "values", "entries", "asarray", "ptype", "dtype", "tostring", "tokey", "walk", "ser":
 		return shape(isInt)
 	}
 	return false
@@ -1221,7 +1246,10 @@ func randHistory(r *rand.Rand, length int) []sx.Sexp {
 		case k < 32:
 			s = st("merge", rr, pick())
 		case k < 33:
-			s = st([]string{"keys", "values", "entries"}[r.Intn(3)], rr)
+			s = st([]string{"keys", "values", "entries", "asarray"}[r.Intn(4)], rr)
+			if r.Intn(3) == 0 {
+				s = st("chunk", rr, n(1+r.Intn(3)), n(r.Intn(3)))
+			}
 		case k < 34:
 			s = st([]string{"mapvalues", "selectpairs", "rejectpairs"}[r.Intn(3)], rr, sx.A("inc"))
 			if s.Tag() != "mapvalues" {
